@@ -459,11 +459,42 @@ pub fn run_case(case: &C12Case) -> CaseReport {
     rep
 }
 
+/// The sequential forkprobe, plus iterator scenarios under the schedule-owning executor in which
+/// deliveries keep arriving (on other threads) while the last owner lets go: the clean-up clause
+/// must also hold when the teardown races a delivery.
+#[derive(Clone, Debug, Serialize, Deserialize)]
+pub enum C12Any {
+    Probe(C12Case),
+    Teardown(crate::iter::IterCase),
+}
+
+fn run_any(c: &C12Any) -> CaseReport {
+    match c {
+        C12Any::Probe(c) => run_case(c),
+        C12Any::Teardown(c) => {
+            let mut r = crate::iter::run_case(c);
+            r.classes.push("teardown-under-deliveries".into());
+            r.nontrivial = !c.late.is_empty();
+            r
+        }
+    }
+}
+
 fn worker(def: &PropDef, args: &WorkerArgs) -> WorkerReport {
-    generic_worker(def, args, strategy(), &run_case)
+    let teardown = crate::iter::strategy(true).prop_map(|mut c| {
+        if c.late.is_empty() {
+            c.late = vec![c.polls % 3, (c.polls + 1) % 3];
+        }
+        C12Any::Teardown(c)
+    });
+    let s = prop_oneof![8 => strategy().prop_map(C12Any::Probe), 1 => teardown].boxed();
+    generic_worker(def, args, s, &run_any)
 }
 
 fn replay(v: &Value) -> CaseReport {
+    if let Ok(c) = serde_json::from_value::<C12Any>(v.clone()) {
+        return run_any(&c);
+    }
     let case: C12Case = serde_json::from_value(v.clone()).expect("case");
     run_case(&case)
 }
@@ -471,7 +502,7 @@ fn replay(v: &Value) -> CaseReport {
 pub static C12: PropDef = PropDef {
     id: "C12",
     prefixes: &["C12/"],
-    rule: "forkprobe: exfiltrator (3) x constructor (SignalsInfo::new | SignalDelivery::with_pipe on a harness socketpair) x initial list x <=12 ops over {add_signal(n) via instance / via handle clone, clone handle, drop handle, drop instance, probe}, n from the full c_int range weighted to boundaries and forbidden numbers; after every step every watched signal is raised for real and must come out of pending() exactly once while the harness's own witness actions fire exactly once. Oracle: instance model (watched set, handle count), expected outcome per number (panic / Err / Ok, same way on repetition), no abort, no panicking drop, descriptor count back to baseline after teardown. Non-trivial = a rejected add followed by further operations, or a failing constructor; distinct = the case value",
+    rule: "(second family, 1 case in 9: iterator scenarios under the schedule-owning executor with deliveries arriving while the instance and its handles are dropped - the teardown must finish and nothing the instance registered may act afterwards) forkprobe: exfiltrator (3) x constructor (SignalsInfo::new | SignalDelivery::with_pipe on a harness socketpair) x initial list x <=12 ops over {add_signal(n) via instance / via handle clone, clone handle, drop handle, drop instance, probe}, n from the full c_int range weighted to boundaries and forbidden numbers; after every step every watched signal is raised for real and must come out of pending() exactly once while the harness's own witness actions fire exactly once. Oracle: instance model (watched set, handle count), expected outcome per number (panic / Err / Ok, same way on repetition), no abort, no panicking drop, descriptor count back to baseline after teardown. Non-trivial = a rejected add followed by further operations, or a failing constructor; distinct = the case value",
     assumptions: &[
         "a leaked registration is observed through the self-pipe write end it keeps open (descriptor count / handed-over fds), the registry offers no introspection",
         "signals are raised only once the library has taken them over",
